@@ -17,6 +17,7 @@
    names, read errors), compile errors in module files (every file compiles), files changing
    while the runtime lives.  No proofs in this file. *)
 From Coq Require Export List NArith Bool.
+From KV.mod Require Export GenModPins.
 Export ListNotations.
 Open Scope N_scope.
 
@@ -61,7 +62,8 @@ Inductive item :=
 | Show (e : expr)                                  (* print the value of e *)
 | Fail                                             (* throw *)
 | DefineTest (t : name) (b : fbody)                (* @test t = || ... *)
-| DefineMain (b : mainv).                          (* @main = ... *)
+| DefineMain (b : mainv)                           (* @main = ... *)
+| SyntaxError.                                     (* text that does not compile: the whole file is rejected *)
 
 (* ---------- maps with insertion order (IndexMap) ---------- *)
 Section Alist.
@@ -113,6 +115,12 @@ Fixpoint mc_remove (p : path) (c : list (path * option N)) : list (path * option
   | (q, v) :: r => if path_eqb q p then mc_remove p r else (q, v) :: mc_remove p r
   end.
 Definition mc_set (p : path) (v : option N) (c : list (path * option N)) := (p, v) :: mc_remove p c.
+(* the cleanup of run_import's error branch, as read from vm.rs by tools/k2v_mod.py (GenModPins.v) *)
+Definition cleanup_cache (p : path) (c : list (path * option N)) : list (path * option N) :=
+  match failure_cleanup with
+  | CleanupRemoveOwn => mc_remove p c
+  | CleanupDropAllPlaceholders => filter (fun e => match snd e with Some _ => true | None => false end) c
+  end.
 
 Fixpoint heap_get (id : N) (h : list (N * mobj)) : mobj :=
   match h with
@@ -174,7 +182,11 @@ Definition find_module (C : cfg) (n : name) (d : dir) : option path :=
 Definition in_prelude (C : cfg) (n : name) : bool := existsb (N.eqb n) (prelude C).
 
 (* ---------- errors / results ---------- *)
-Inductive err := ECycle | ENoModule | EThrow | ENotFound | EType | EOutside.
+Inductive err := ECycle | ENoModule | EThrow | ENotFound | EType | EOutside | ECompile.
+
+(* a file / script that does not compile *)
+Definition is_syntax_error (it : item) : bool := match it with SyntaxError => true | _ => false end.
+Definition broken (body : list item) : bool := existsb is_syntax_error body.
 Inductive res (A : Type) := Ok (a : A) | Err (e : err).
 Arguments Ok {A} a.
 Arguments Err {A} e.
@@ -320,6 +332,7 @@ Section Exec.
         end
     | DefineTest t b => Some (Ok f, export_test t b s)
     | DefineMain b => Some (Ok f, export_main b s)
+    | SyntaxError => Some (Err ECompile, s)           (* unreachable: broken bodies are rejected before they run *)
     | Import (ImpMod m alias) =>
         match import_item f s m false with
         | None => None
@@ -398,8 +411,11 @@ Section Exec.
         | None => Some (Err ENoModule, s)
         | Some p =>
             let loaded_from_cache := existsb (path_eqb p) (chunks s) in
-            let s1 := if loaded_from_cache then s else set_chunks (p :: chunks s) s in
             let body := match file_get p (files C) with Some b => b | None => [] end in
+            (* a chunk that is not in the loader's cache is compiled now; a compile error returns
+               before the chunk cache and the module cache are touched *)
+            if negb loaded_from_cache && broken body then Some (Err ECompile, s) else
+            let s1 := if loaded_from_cache then s else set_chunks (p :: chunks s) s in
             (* Has the module been loaded previously? *)
             let in_cache := mc_get p (mcache s1) in
             let reuse :=
@@ -423,7 +439,7 @@ Section Exec.
                     Some (Ok (VMod module_exports, successful_import f (VMod module_exports) all),
                           set_exports importer_exports s5)
                 | Some (Err e, s4) =>
-                    let s5 := set_mcache (mc_remove p (mcache (emit (EvFailed p) s4))) (emit (EvFailed p) s4) in
+                    let s5 := set_mcache (cleanup_cache p (mcache (emit (EvFailed p) s4))) (emit (EvFailed p) s4) in
                     Some (Err e, set_exports importer_exports s5)
                 end
             end
@@ -448,6 +464,7 @@ Definition init_st : st :=
 
 (* Koto::run with run_tests = false: the script, then @main of the (persistent) exports *)
 Definition host_run (C : cfg) (fuel : nat) (force : bool) (d : dir) (body : list item) (s : st) : M unit :=
+  if broken body then Some (Err ECompile, s) else
   match run_items C (imp C fuel) force (new_frame (exports s) d) s body with
   | None => None
   | Some (Err e, s1) => Some (Err e, s1)
